@@ -30,7 +30,7 @@ class LoopSpec:
 class Case:
     def __init__(self, label, params, requires=None, ensures=None, raises=None, loops=None, exact_integer=False,
                  must_return=None, result_name="result", ghost=None, max_paths=400, axioms=None, yields=None,
-                 native_gen=None, native_call=None, size_bounded=False, kwargs_map=None):
+                 native_gen=None, native_call=None, size_bounded=False, kwargs_map=None, native_raw=False):
         self.label, self.params = label, params
         self.requires, self.ensures = requires, ensures
         self.raises = raises or {}
@@ -44,6 +44,7 @@ class Case:
         self.native_gen = native_gen
         self.native_call = native_call
         self.size_bounded = size_bounded
+        self.native_raw = native_raw            # native_call builds its own real inputs from the plain model data (no realize step)
         self.kwargs_map = kwargs_map or {}      # keyword name -> case parameter passed under that keyword (**kwargs of the function)
 
 
@@ -115,8 +116,10 @@ def verify_case(fc: FnContract, case: Case, timeout_ms=10000, budget_s=240):
         it.top_fn = fn
         it.in_top = True
         args = {p: fresh(ctx, t, p) for p, t in case.params.items()}
-        old = {k: (v.snapshot() if hasattr(v, "snapshot") else v) for k, v in args.items()}
+        from .engine import snap
+        old = {k: snap(v) for k, v in args.items()}
         it.old_args = old
+        case.interp = it            # contracts that must APPLY a returned callable (closures, partials) do so through the interpreter
         stats["paths"] += 1
         try:
             try:
@@ -124,10 +127,10 @@ def verify_case(fc: FnContract, case: Case, timeout_ms=10000, budget_s=240):
                     inv = t.kw.get("where")
                     if inv is not None:
                         ctx.assume(S.to_z3(inv(args[p])))
+                if case.ghost:
+                    case.ghost(ctx, NS(args))       # ghost state first: the precondition may speak about it
                 if case.requires is not None:
                     ctx.assume(S.to_z3(case.requires(NS(args))))
-                if case.ghost:
-                    case.ghost(ctx, NS(args))
                 if stats["paths"] == 1 or ctx.qf_solver is None:
                     # vacuity guard (with quantified theory axioms a model is rarely produced: short budget, first path only --
                     # an inconsistent precondition is refuted quickly or not at all)
@@ -224,7 +227,7 @@ def replay_case(fc: FnContract, case: Case, model):
         model = case.native_gen(None, model)
     mod = importlib.import_module(module_name(world.file))
     import copy
-    args = {p: realize(world, model[p], mod) for p in case.params}
+    args = dict(model) if case.native_raw else {p: realize(world, model[p], mod) for p in case.params}
     try:
         memo = {}
         old = copy.deepcopy(args, memo)
@@ -239,8 +242,11 @@ def replay_case(fc: FnContract, case: Case, model):
     except Exception:  # pylint: disable=broad-except
         old = dict(args)
     parts = fc.qualname.split(".")
+    f = None
     try:
-        if fc.setter:
+        if case.native_call is not None:
+            pass
+        elif fc.setter:
             cls = getattr(mod, parts[0])
             f = getattr(cls, parts[1]).fset
         else:
